@@ -427,6 +427,7 @@ func checkC03(c *Ctx) {
 		// the level streams are written (and read) with the minimal bit width of the column's maximum level, which is what
 		// "a reader that knows only the Parquet specification" derives from the schema
 		laOrder(c2, "LA-order")
+		laMaxLevels(c2, "LA-maxlevels")
 	})
 	r.assume("RepetitionTypes.MaxDef/MaxRep at run time and the RLE bytes (C07) are not decided here")
 }
